@@ -169,6 +169,10 @@ def compare(p, ctx, t, nint, lab1, lab2, label):
     for o in (o1, o2):
         try:
             call(o["fsys"].build_pressure_matrix, when=0)
+            if not infer.interface_graph_connected(o["fsys"].pressure_matrices[0].lhs_matrix):
+                ctx.count("pressure-graph-disconnected(not compared)")
+                pr = None
+                break
             call(o["fsys"].solve_pressure, when=0, method="lagrange_pressure")
         except Exception as e:
             if "expecting 2" in str(e):
